@@ -61,7 +61,7 @@ CHECKS = {
         text="Theorems (Coq, EVERY call history): an accepted LayeredArchitecture history defines exactly the layers/modules supplied, in order, with unique layer names, no module in two layers, "
              "only the last layer possibly pending (C16_accepted_definition, invariant by induction over the history); a call is rejected, with a configuration error, exactly when it violates one of the four "
              "documented conditions (C16_reject_at_call); string and list forms coincide; LayerRule: architecture first and once, exactly one subject layer, no subject batch. "
-             "Tie to /repo: exhaustive call sequences up to length 5 (quick) / 6 (thorough) over 9 symbols + random longer ones on the real classes: index of first rejected call, error family, str(architecture) "
+             "Tie to /repo: exhaustive call sequences up to length 5 (quick) / 6 (thorough) over 9 symbols + random longer ones on the real classes, also under layer / module names that are awkward in message templates (braces, percent signs, blanks): index of first rejected call, error family (must be a configuration error), str(architecture) "
              "compared with the documented rules and with the model.",
         note="Trusted: Coq kernel, extraction, driver, harness (parser of str(architecture)).",
         technique="Coq invariant proof over builder histories + exhaustive history correspondence",
@@ -72,7 +72,7 @@ CHECKS = {
              "(C05_layer_of_member/nonmember). Proof: lowering to a strict module rule (C01's query characterisations), then the four lenient buckets, same-layer pairs dropped everywhere. "
              "Tie to /repo: random graphs x partitions into 2-4 layers (list / str / anchored regex; modules in no layer) x 14 shapes through the real LayeredArchitecture/LayerRule API vs the model "
              "(verdict + parsed report lines with layer tags) and vs an independent python reading of the documented semantics.",
-        note="The two any-layer aliases are covered by correspondence and the python oracle (the alias rewrite is C12_alias). Hypothesis lwf: listed (resolved) modules pairwise unrelated and existing, "
+        note="The two any-layer aliases are covered by correspondence and the python oracle (the alias rewrite is C12_alias); a layer given by a regex is additionally compared with the same layer given by naming the matched modules, for both aliases - open known finding K3b (known_findings.json): they differ when the regex matches a module together with its own sub modules (the layer form of K3). Hypothesis lwf: listed (resolved) modules pairwise unrelated and existing, "
              "layer names distinct, object layers non-empty and different from the subject. Trusted: Coq kernel, extraction, driver, harness.",
         technique="Coq proof (reduction to strict module rule + bucket analysis) + model/implementation correspondence",
         design="5/C05"),
@@ -81,7 +81,7 @@ CHECKS = {
              "hence for ANY injective renaming f of path components the verdict, violation lines (C14_rule_rename_invariant) and layer verdicts / layer attributions (C14_layer_rename_invariant) "
              "commute with f; plot labels: C14_label_rename_invariant / _unaliased (the label is the alias of the most specific aliased module + the remaining components, so it keeps the alias and renames the rest); C14_render_prefix: on dotted strings the component prefix order is exactly 'equal or starts with name + dot' (the test every name comparison in the code must use). "
              "Tie to /repo: every case materialised under several namings on the real code - collision-free and adversarial pools (a, ab, a_b, aa, ...; names repeating the root; a.b next to a_b) - real outcomes compared modulo the renaming "
-             "(module rules, layer rules, plot labels), plus model agreement.",
+             "(module rules, layer rules, diagram rules in both modes, plot labels, scanned projects), plus model agreement.",
         note="Regex specifications are outside the claim (renaming changes what they match): hypothesis rm_agree. "
              "Trusted: Coq kernel, the Paramcoq plugin only generates terms that the kernel re-checks, extraction, driver, harness.",
         technique="Coq free theorem via Paramcoq + string-level lemma + metamorphic double materialisation on the implementation",
@@ -101,7 +101,7 @@ CHECKS = {
              "related modules included (C15_order_independent, lists as sets), and so is the whole outcome class pass / AssertionError / error (C15_class_order_independent); the graph queries return the same Ok/error and the same set of imports (C15_query_order_independent); the configuration "
              "a rule object is left with after an evaluation evaluates like the original on every architecture (C15_reapply); the model's evaluable is an immutable value. "
              "Checked by execution on /repo (not provable in a model): 40-evaluation interleavings on one shared evaluable vs each evaluation alone, snapshot before/after, re-applied rule objects, "
-             "all permutations of list arguments and layer orders, permuted exclusion tuples, shuffled Path.iterdir, two scans, 8 hash seeds in fresh interpreters (digest of all verdicts, messages and complete error texts of a deterministic battery of module rules, layer rules and diagram rules; on a difference the first differing evaluation is located and reported).",
+             "all permutations of list arguments and layer orders, permuted exclusion tuples (also regex exclusions with an inline flag or a back reference, every order, against 'excluded iff one pattern matches'), shuffled Path.iterdir, two scans, 8 hash seeds in fresh interpreters (digest of all verdicts, messages and complete error texts of a deterministic battery of module rules, layer rules and diagram rules; on a difference the first differing evaluation is located and reported).",
         note="The runtime behaviour the model cannot exhibit: CPython set/dict iteration order, hash randomisation, Path.iterdir order, networkx freeze/mutation. Those are exercised, not proved. "
              "Trusted: Coq kernel, harness.",
         technique="Coq proof of order-independence / re-application on the model + execution under varied orders, histories and hash seeds",
@@ -110,8 +110,8 @@ CHECKS = {
         text="Theorems (Coq): the traversal collects exactly the import statements occurring at any depth of any statement tree (C02_collect, nested induction over an arbitrary rose tree, so it covers "
              "statement-list positions of grammars not yet written); naming rules for the three forms (C02_names_*); the architecture's imports are exactly the resolved, kept import statements of the "
              "importer's file between two different graph modules (C02_edges_exact). Tie to /repo: statement-list positions enumerated from the running interpreter's ast grammar, nested to depth 3, "
-             "x 9 import forms, built as ASTs, unparsed, re-parsed, written to real packages and scanned from root and from a sub-package; random projects; scanned imports vs documented resolution (python oracle) and vs the model scan.",
-        note="ast.parse/ast.unparse, pathlib and the file system are modelled not verified. Trusted: Coq kernel, extraction, driver, harness.",
+             "x 9 import forms, built as ASTs, unparsed, re-parsed, written to real packages and scanned from root and from a sub-package; random projects whose files are spelt in semantics-preserving styles (aliases, parenthesised / backslash-continued imports, several names per statement in any order, comments and string literals containing import statements, tabs, trailing blanks, CRLF, UTF-8 BOM, no final newline, TYPE_CHECKING / try-except-ImportError / match / method blocks, one-line compound statements) and whose path arguments are spelt in 7 equivalent ways (trailing separators, pathlib.Path, '.' segments, 'x/../x' detours, relative to the current directory); scanned imports vs documented resolution (python oracle) and vs the model scan.",
+        note="ast.parse (on the file's bytes), pathlib and the file system are exercised, not modelled: the model receives the statement tree from which the harness rendered the text. Trusted: Coq kernel, extraction, driver, harness.",
         technique="Coq proof (rose-tree induction, edge characterisation) + grammar-enumerated correspondence on real files",
         design="5/C02"),
     "C04": dict(
@@ -153,7 +153,7 @@ CHECKS = {
         text="Theorems (Coq, exclusion patterns as oracle): externals excluded => every kept import is internal and no external module is added; included => every external importee and all its ancestors are modules; "
              "a match on the importee or an ancestor removes the import and the module; internal imports are kept in every configuration and every added module is external (C10_*). "
              "Tie to /repo: random projects with internal/external imports (nested externals, prefix/suffix-sharing names, root-package imports, non-module relative importees, relative imports leaving module_path) x 3 module_paths x "
-             "{exclude, include, include+glob, include+regex} vs the documented effect (python oracle), internal view compared across configurations, all vs the model scan.",
+             "{exclude, include, include+glob, include+regex, and mixes of glob / regex forms across file and external exclusions} (imports nested in every block kind incl. except handlers and match cases) vs the documented effect (python oracle), internal view compared across configurations, all vs the model scan.",
         note="Pattern matching on dotted names is the real re (oracle table handed to the model); glob fragment proved in C08. Trusted: Coq kernel, extraction, driver, harness.",
         technique="Coq proof (filter/extension lemmas with oracle) + correspondence on real scans",
         design="5/C10"),
@@ -163,7 +163,7 @@ CHECKS = {
              "none of whose ancestors-or-self down from module_path is excluded, and only those files are parsed (C08_scan_modules, C08_scan_files, C08_scan_files_exact); every import of the filtered scan into a remaining module is an import of the unfiltered scan between remaining modules and conversely "
              "(C08_scan_imports, under: externals excluded, module_path not excluded, no 'from P import n' of an excluded sub module of a remaining P, absolute names fully qualified only); C08_from_import_refuted: kernel-checked witness that the third hypothesis cannot be dropped (known finding K2). "
              "Tie to /repo: (a) exhaustive over a small alphabet (converter output string; real FileFilter vs model matcher incl. newline; four-case oracle on the real code); (b) random trees x exclusion tuples built from the tree's own paths "
-             "(glob shapes and regex translations, names with regex metacharacters): filtered vs unfiltered real scan, vs model with the oracle from the real re.",
+             "(glob shapes and regex translations, names with regex metacharacters): filtered vs unfiltered real scan, vs model with the oracle from the real re; regex_exclusions passed alone (exclusions left at its default) must be refused or applied.",
         note="'Imports between remaining modules unchanged' is proved outside the K2 corner and the ambiguous-name corner (hypotheses k2free, unambR) and additionally checked on the real code with K2 instances matched as known finding. "
              "Trusted: Coq kernel, extraction (ExtrOcamlBasic) + driver, Python harness. Modelled not verified: CPython re on the emitted fragment (compared exhaustively up to the stated lengths).",
         technique="Coq proof (induction on pattern/subject; rose-tree induction and import-resolution case analysis for the tree part) + exhaustive model/implementation correspondence",
